@@ -55,3 +55,28 @@ Definition certificate_verify_input12 (wire : list wire_msg) : bytes := handshak
 Definition session_hash (H : hashfn) (wire : list wire_msg) : bytes := h_fn H (handshake_messages wire).
 Definition extended_master_secret_wire (H : hashfn) (pms : bytes) (wire : list wire_msg) : bytes :=
   extended_master_secret H pms (session_hash H wire).
+
+(* ---------------- other wire-level facts of a handshake judged by the live legs ---------------- *)
+
+(* NSS key log line "<label> <ClientHello.random> <secret>": a passive decoder looks the secret up under
+   the ClientHello.random it saw on the wire, so a line is usable iff its second column is that random
+   and its third column is the secret the records are protected with *)
+Definition keylog_line_usable (wire_client_random line_random line_secret secret : bytes) : bool :=
+  bytes_eqb line_random wire_client_random && bytes_eqb line_secret secret.
+
+(* RFC 4279 section 2: ServerKeyExchange = opaque psk_identity_hint<0..2^16-1>;
+   RFC 5489 section 2: ... followed by ServerECDHParams params (the length field is always present) *)
+Definition psk_server_key_exchange (hint : bytes) : bytes := be_enc 2 (len hint) ++ hint.
+Definition ecdhe_psk_server_key_exchange (hint : bytes) (named_curve : N) (public : bytes) : bytes :=
+  psk_server_key_exchange hint ++ server_ecdh_params named_curve public.
+
+(* RFC 8446 section 4.2.3: in (D)TLS 1.3 an ECDSA SignatureScheme names the curve of the key:
+   ecdsa_secp256r1_sha256(0x0403), ecdsa_secp384r1_sha384(0x0503), ecdsa_secp521r1_sha512(0x0603);
+   argument: the NamedGroup of the certificate key (secp256r1 23, secp384r1 24, secp521r1 25) *)
+Definition ecdsa_scheme13 (group : N) : option N :=
+  match group with
+  | 23 => Some 1027
+  | 24 => Some 1283
+  | 25 => Some 1539
+  | _ => None
+  end.
